@@ -157,3 +157,14 @@ impl StaticOrDynamic {
         }
     }
 }
+
+#[cfg(feature = "verif")]
+impl MarkerString {
+    /// Whether the capture regex is compiled (verification hook)
+    pub fn verif_capture_compiled(&self) -> bool {
+        match self.regex_capture.read() {
+            Ok(regex) => regex.compiled.is_some(),
+            Err(_) => false,
+        }
+    }
+}
